@@ -1476,7 +1476,9 @@ func (app *App) performSwitchover(clusterState map[string]*nodestate.NodeState, 
 	// check if need recover old master
 	oldMasterSlaveStatus, err := oldMasterNode.GetReplicaStatus()
 	app.logger.Info().Msgf("switchover: old master slave status: %#v", oldMasterSlaveStatus)
-	if err != nil || oldMasterSlaveStatus == nil || isSlavePermanentlyLost(oldMasterSlaveStatus, mostRecentGtidSet) {
+	// an old master that already carries a recovery mark (it was exempt from delisting only as the
+	// recorded master) goes through SetRecovery as well, so that it leaves the active nodes now
+	if err != nil || oldMasterSlaveStatus == nil || isSlavePermanentlyLost(oldMasterSlaveStatus, mostRecentGtidSet) || app.IsRecoveryNeeded(oldMaster) {
 		err = app.SetRecovery(oldMaster)
 		if err != nil {
 			return fmt.Errorf("failed to set old master %s to recovery: %w", oldMaster, err)
